@@ -187,16 +187,34 @@ Definition auto_resolution (sq : Q -> option Q) (g : geom) : res Q :=
   | None => Err EOther
   end.
 
-(** all coordinate sequences that carry edges, in order (lines, rings, polygon
-    shells and holes), and all vertices in order *)
+(** polyline length through [sq]; [None] when some edge has no root *)
+Fixpoint path_length (sq : Q -> option Q) (l : list pt) : option Q :=
+  match l with
+  | p :: (q :: _) as tl =>
+      match sq (sqdist p q), path_length sq tl with
+      | Some a, Some b => Some (a + b)
+      | _, _ => None
+      end
+  | _ => Some 0
+  end.
+
+(** all coordinate sequences in order (a point is a one-vertex sequence; lines,
+    rings, polygon shells and holes), and all vertices in order *)
 Fixpoint paths (g : geom) : list (list pt) :=
   match g with
-  | Point _ => []
+  | Point p => [[p]]
   | Line cs => [cs]
   | Ring cs => [cs]
   | Polygon e hs => e :: hs
   | Multi _ ps => concat (map paths ps)
   end.
+
+(** shapely [.length]: sum of the polyline lengths of all coordinate sequences *)
+Definition geom_length (sq : Q -> option Q) (g : geom) : option Q :=
+  fold_right (fun l acc => match path_length sq l, acc with
+                           | Some a, Some b => Some (a + b)
+                           | _, _ => None
+                           end) (Some 0) (paths g).
 
 Fixpoint vertices (g : geom) : list pt :=
   match g with
